@@ -131,6 +131,8 @@ def execute(check, case, seed=None, replay=None):
         switch_digest=digest(sim.switch_log),
         digest=digest((sim.trace, tape.out, sim.switch_log, obs, [v['sig'] for v in res['violations']])),
     )
+    if DEBUG_HOOK is not None:
+        DEBUG_HOOK(sim, case, ctx, res)
     world = ctx.get('world')
     if world is not None:
         try:
@@ -151,3 +153,4 @@ def execute(check, case, seed=None, replay=None):
 
 
 _runs = [0]
+DEBUG_HOOK = None     # debugging aid: callable(sim, case, ctx, res) run before the world is torn down
